@@ -18,6 +18,8 @@ impl ExpSpec {
     pub fn resolve(&self, height: u64, time: u64) -> Expiration {
         match *self {
             ExpSpec::Never => Expiration::Never {},
+            ExpSpec::Height(i32::MAX) => Expiration::AtHeight(u64::MAX),
+            ExpSpec::Time(i64::MAX) => Expiration::AtTime(Timestamp::from_nanos(u64::MAX)),
             ExpSpec::Height(d) => Expiration::AtHeight((height as i128 + d as i128).clamp(0, u64::MAX as i128) as u64),
             ExpSpec::Time(d) => Expiration::AtTime(Timestamp::from_seconds(
                 (time as i128 + d as i128).clamp(0, (u64::MAX / 1_000_000_000) as i128) as u64,
@@ -42,6 +44,8 @@ pub fn exp_spec() -> BoxedStrategy<ExpSpec> {
         6 => (-2i32..8).prop_map(ExpSpec::Height),
         6 => (-10i64..60).prop_map(ExpSpec::Time),
         1 => (0i32..10_000).prop_map(ExpSpec::Height),
+        // the far end of the range: i32::MAX / i64::MAX stand for the largest height / time there is
+        1 => prop_oneof![Just(ExpSpec::Height(i32::MAX)), Just(ExpSpec::Time(i64::MAX))],
     ]
     .boxed()
 }
@@ -81,6 +85,8 @@ impl ExpSpec {
     pub fn resolve_ns(&self, height: u64, time_nanos: u64) -> Expiration {
         match *self {
             ExpSpec::Never => Expiration::Never {},
+            ExpSpec::Height(i32::MAX) => Expiration::AtHeight(u64::MAX),
+            ExpSpec::Time(i64::MAX) => Expiration::AtTime(Timestamp::from_nanos(u64::MAX)),
             ExpSpec::Height(d) => Expiration::AtHeight((height as i128 + d as i128).clamp(0, u64::MAX as i128) as u64),
             ExpSpec::Time(d) => Expiration::AtTime(Timestamp::from_nanos((time_nanos as i128 + d as i128 * 1_000_000_000).clamp(0, u64::MAX as i128) as u64)),
         }
